@@ -301,6 +301,64 @@ def run_task(kind, obj, case, budget_s, inner_nproc=1):
     return {"records": out, "stats": st}
 
 
+def fork_map(fn, items, nproc=None, deadline_s=3000):
+    """run fn(item) for every item in forked children (results must be JSON-serialisable); order preserved; a crash in a child is
+    re-raised in the parent (a crash of a stand-in is a crash of the check, never a verdict)"""
+    import select
+    nproc = nproc or min(16, os.cpu_count() or 4)
+    items = list(items)
+    if len(items) <= 1 or nproc <= 1:
+        return [fn(x) for x in items]
+    pending, running, results = list(enumerate(items)), {}, {}
+    while pending or running:
+        while pending and len(running) < nproc:
+            i, x = pending.pop(0)
+            rfd, wfd = os.pipe()
+            sys.stdout.flush()
+            sys.stderr.flush()
+            pid = os.fork()
+            if pid == 0:
+                os.close(rfd)
+                try:
+                    try:
+                        res = {"ok": fn(x)}
+                    except BaseException:
+                        res = {"crash": traceback.format_exc()}
+                    data = json.dumps(res, default=str).encode()
+                    off = 0
+                    while off < len(data):
+                        off += os.write(wfd, data[off:off + 65536])
+                finally:
+                    os._exit(0)
+            os.close(wfd)
+            running[pid] = (i, rfd, time.time() + deadline_s, bytearray())
+        ready, _, _ = select.select([v[1] for v in running.values()], [], [], 0.05)
+        for pid, (i, rfd, deadline, buf) in list(running.items()):
+            eof = False
+            if rfd in ready:
+                chunk = os.read(rfd, 1 << 20)
+                if chunk:
+                    buf.extend(chunk)
+                else:
+                    eof = True
+            if eof or time.time() > deadline:
+                if not eof:
+                    try:
+                        os.kill(pid, 9)
+                    except OSError:
+                        pass
+                os.close(rfd)
+                os.waitpid(pid, 0)
+                del running[pid]
+                if not eof:
+                    raise RuntimeError(f"fork_map: item {i} exceeded {deadline_s}s")
+                res = json.loads(bytes(buf).decode() or '{"crash": "no output from child"}')
+                if "crash" in res:
+                    raise RuntimeError("fork_map child crashed:\n" + res["crash"])
+                results[i] = res["ok"]
+    return [results[i] for i in range(len(items))]
+
+
 def run_parallel(tasks, budget_s, nproc=None, task_deadline_s=600):
     """tasks: list of (key, kind, obj, case).  Forked workers; each returns its JSON through a pipe; hard kill at the deadline."""
     import select, signal
